@@ -235,7 +235,7 @@ def oracle(seed=1, trials=60):
             s = models.ComponentSource()
             s.ra = (base[0] + rng.uniform(-0.3, 0.3) / max(0.05, real_np.cos(real_np.radians(base[1])))) % 360
             s.dec = base[1] + rng.uniform(-0.3, 0.3)
-            s.peak_flux = rng.choice([1.0, 2.0, 3.0, rng.uniform(0.1, 5)])
+            s.peak_flux = rng.choice([1.0, 2.0, -3.0, rng.uniform(-5, 5)])
             s.a, s.b, s.pa = 30.0, 20.0, 0.0
             s.uuid = 'u%d' % k
             srcs.append(s)
@@ -362,11 +362,13 @@ def run(rep):
 
 def handle(rep, res, kname):
     done = False
+    tries = 0
     for r in res:
         for ob in r['obligations']:
             rep.count(ob['result'], ob['name'])
-            if ob['result'] == 'sat' and not done:
-                bad, cls, detail = oracle(5, 200)
+            if ob['result'] == 'sat' and not done and tries < 3:
+                tries += 1
+                bad, cls, detail = oracle(5 + tries, 200)
                 if rep.finding('C19/%s/%s' % (kname, cls or ob['name'].split(':')[-1]), dict(kind='oracle', seed=5), detail or ob['name'], reproduced=bad) != 'not-reproduced':
                     done = True
     if res:
